@@ -343,7 +343,7 @@ def phase(run, cfgs, prefix, kinds, keep=None, replay=None, num=None):
         res = [_job(items[0])]
         n_states = 0
     else:
-        num = num or (300 if run.tier == "quick" else 1500)
+        num = num or (420 if run.tier == "quick" else 2000)      # (a third of the walks now head for an indefinite target and never finish)
         logs = []
         n_states = 0
         for cfg in cfgs:
